@@ -424,7 +424,7 @@ def confirm_replay(prop, path, kind):
                        timeout=3600)
     if p.returncode in (0, 1) and f"REPLAY-VIOLATION kind={kind} " in p.stdout:
         return True, ""
-    return False, f"replay exit={p.returncode} out={p.stdout[-400:]!r} err={p.stderr[-400:]!r}"
+    return False, f"replay exit={p.returncode} out={p.stdout[-300:]!r} err={p.stderr[-300:]!r}"
 
 
 def do_replay(prop, modname, path):
@@ -445,10 +445,15 @@ def do_replay(prop, modname, path):
     if not vs:
         print(f"REPLAY-OK property={prop} case no longer violates")
         return 0
-    for v in vs[:8]:
+    seen_cls = set()
+    for v in vs:  # one line per violation class (a replayed chunk can hold thousands of cases of the same class)
+        key = canon([v["kind"], v["attrs"]])
+        if key in seen_cls or len(seen_cls) >= 60:
+            continue
+        seen_cls.add(key)
         print(f"REPLAY-VIOLATION kind={v['kind']} attrs={canon(v['attrs'])} :: {v['msg'][:500]}")
-    if len(vs) > 8:
-        print(f"... {len(vs) - 8} more violations in this replay")
+    if len(vs) > len(seen_cls):
+        print(f"... {len(vs)} violations in {len(seen_cls)} classes in this replay")
     known = load_known(prop)
     if all(match_known(known, v) for v in vs):
         print(f"KNOWN-FINDING: property={prop} (replayed case matches a listed finding)")
